@@ -42,6 +42,7 @@ KINDS = {
     "kl": 0.5,
     "objective": 0.5,
     "set_train_data": 0.4,
+    "sub_mode": 0.7,
 }
 FAULT_KINDS = {"fault_predict": 1.5, "bad_load_state_dict": 1.2}
 
@@ -129,8 +130,7 @@ def execute(history):
             out.stats["op:" + k] += 1
             tag = k
             if k == "predict":
-                if M.training:
-                    driver.set_mode(live, False)
+                driver.set_mode(live, False)
                 had_cache = has_eval_cache(M)
                 if had_cache and mutated:
                     out.stats["probe:cache_reused_after_mutation_class_op"] += 1
